@@ -215,7 +215,9 @@ def tensor_kernels(chk, F, T):
             r = F.records.get(t)
             if r is not None and r.get("template") in TENSORS and t.endswith("<%s>" % T):
                 return "tensor"
-            return "num" if t == T else None
+            if t in ("float", "double", "long double"):
+                return "num" if t == T else "numx"     # a plain number of another floating type (OtherNumericType forms)
+            return None
         ks = [kind(t) for t in pts]
         if None in ks or "tensor" not in ks:
             continue
@@ -244,6 +246,12 @@ def tensor_kernels(chk, F, T):
             for i, (path, got) in enumerate(out):
                 a = L[i][1] if nL > 1 else L[0][1]
                 b = R[i][1] if nR > 1 else R[0][1]
+                # a number of another floating type is converted to the tensor's numeric type first, in the pure
+                # operators and in the compound assignments alike (so that `v /= n` leaves what `v / n` returns)
+                if ks[0] == "numx":
+                    a = ("cast", T, a, pts[0])
+                if ks[1] == "numx":
+                    b = ("cast", T, b, pts[1])
                 want = (OPNAME[op], a, b)
                 if not eq_mod_comm(got, want):
                     bad = "slot %s = %s, expected the single operation %s" % (path, ev.show(got)[:200], ev.show(want))
